@@ -49,7 +49,7 @@ static bool free_mode = false;
 // the mutex and notifies, so no wake-up is lost.
 template < typename Pred >
 static void wait_for(std::condition_variable &cv, Pred pred) {
-  for (int k = 0; k < 4000; ++k) {
+  for (int k = 0; k < 30000; ++k) {
     if (pred())
       return;
   }
